@@ -13,6 +13,15 @@ import sys
 
 
 def main(prop, path):
+    from .explorer import Divergence
+    try:
+        return _main(prop, path)
+    except Divergence as e:
+        print(f"DIVERGENCE: the recorded choice sequence does not fit this tree: {e}")
+        return 2
+
+
+def _main(prop, path):
     with open(path) as f:
         doc = json.load(f)
     kind = doc.get("kind")
@@ -22,7 +31,7 @@ def main(prop, path):
         for ev in x.run.trace:
             print("   ", ev)
         print("result:", x.result)
-        want = doc.get("violation", {})
+        want = doc.get("orig") or doc.get("violation", {})
         hits = [v for v in x.viol if v["prop"] == want.get("prop") and v["kind"] == want.get("kind")]
         post = doc.get("post")
         if post:
